@@ -389,7 +389,7 @@ macro_rules! rb_case {
     };
 }
 
-fn eq_places(a: &Places, b: &Places) -> bool {
+pub fn eq_places(a: &Places, b: &Places) -> bool {
     let mut i = 0;
     while i < 6 {
         if a[i] != b[i] {
@@ -399,7 +399,7 @@ fn eq_places(a: &Places, b: &Places) -> bool {
     }
     true
 }
-fn eq_lets(a: &Lets, b: &Lets) -> bool {
+pub fn eq_lets(a: &Lets, b: &Lets) -> bool {
     let mut i = 0;
     while i < 6 {
         if a[i] != b[i] {
@@ -411,7 +411,7 @@ fn eq_lets(a: &Lets, b: &Lets) -> bool {
 }
 
 /// what a hand-written `if let Ok((v0, v1, ..)) = r { p_i = v_i; / let x_i = v_i; / _ }` leaves behind
-fn rb_expect(kinds: &[u8], vals: &Places, init: &Places) -> (Places, Lets) {
+pub fn rb_expect(kinds: &[u8], vals: &Places, init: &Places) -> (Places, Lets) {
     let mut p = *init;
     let mut o: Lets = [None; 6];
     let mut i = 0;
@@ -430,7 +430,7 @@ fn rb_expect(kinds: &[u8], vals: &Places, init: &Places) -> (Places, Lets) {
 
 /// `rebind_if_ok!` == `if let Ok(..)`: on Ok every component lands in its place, in order, and the
 /// trailing code runs; on Err nothing is assigned and the code does not run
-fn rio_ok(kinds: &[u8], ok: Option<Places>, init: &Places, got: (Places, Lets, bool)) -> bool {
+pub fn rio_ok(kinds: &[u8], ok: Option<Places>, init: &Places, got: (Places, Lets, bool)) -> bool {
     match ok {
         Some(vals) => {
             let (p, o) = rb_expect(kinds, &vals, init);
@@ -440,7 +440,7 @@ fn rio_ok(kinds: &[u8], ok: Option<Places>, init: &Places, got: (Places, Lets, b
     }
 }
 /// `try_rebind!` == `let (..) = r?;`
-fn trb_ok(kinds: &[u8], ok: Option<Places>, err: E, init: &Places, got: Result<(Places, Lets), E>) -> bool {
+pub fn trb_ok(kinds: &[u8], ok: Option<Places>, err: E, init: &Places, got: Result<(Places, Lets), E>) -> bool {
     match (ok, got) {
         (Some(vals), Ok(g)) => {
             let (p, o) = rb_expect(kinds, &vals, init);
